@@ -669,3 +669,68 @@ def rule_sink_sequential(ctx, rule, fv, who):
               "the output sink is written from inside a closure run by rayon workers: row order would depend "
               "on scheduling" if bad else "no write to the sink found",
               line_of(bad[0]) if bad else fv.fn["sp"])
+
+
+
+def spawned_worker_loops(fv):
+    """[(closure, loop)] for every `loop` directly inside a closure handed to a spawn call"""
+    out = []
+    for n in fv.nodes:
+        if n.get("k") == "mcall" and is_spawn(n):
+            for a in n.get("args", []):
+                if a.get("k") == "closure":
+                    loops = [x for x in walk(a) if x.get("k") == "loop"]
+                    if loops:
+                        out.append((a, loops[0]))
+    return out
+
+
+def rule_taken_reaches(ctx, rule, fv, who, is_target, what):
+    """A8: on every path of a worker loop on which a record was taken (Some), the target event
+    (row write / k-mer loop / run loop) is reached before the iteration ends; a worker leaves the
+    loop only before taking or when the reader returned None."""
+    wl = spawned_worker_loops(fv)
+    if not wl:
+        ctx.fail(rule, "%s:worker_loop" % who, "spawned worker loop not found", fv.fn["sp"])
+        return
+    clo, loop = wl[0]
+
+    def want(n):
+        if n.get("k") in ("mcall", "call") and rname(n) == SEQ_NEXT:
+            return True
+        return is_target(n)
+    try:
+        paths = enum_paths(loop["body"], want)
+    except TooManyPaths:
+        ctx.fail(rule, "%s:paths" % who, "too many paths", line_of(loop))
+        return
+    lost = leave = None
+    n_take = 0
+    for ev, ex in paths:
+        took = any(e[0] == "ev" and e[1].get("k") in ("mcall", "call") and rname(e[1]) == SEQ_NEXT for e in ev)
+        some = any(e[0] == "cond" and e[1].get("k") == "letexpr" and e[2] for e in ev) or \
+            any(e[0] == "arm" and "Some" in str(e[1]["arms"][e[2]]["pat"].get("path", "")) for e in ev)
+        none = any(e[0] == "cond" and e[1].get("k") == "letexpr" and not e[2] for e in ev) or \
+            any(e[0] == "arm" and "None" in str(e[1]["arms"][e[2]]["pat"].get("path", "")) for e in ev)
+        reached = any((e[0] == "ev" and is_target(e[1]) and not (e[1].get("k") in ("mcall", "call") and rname(e[1]) == SEQ_NEXT))
+                      or (e[0] in ("enter", "skip") and is_target(e[1])) for e in ev)
+        if took:
+            n_take += 1
+        if took and some and not reached:
+            lost = (ev, ex)
+        if took and not (some or none):
+            lost = (ev, ex)
+        if took and some and ex[0] not in ("fall", "continue"):
+            leave = (ev, ex)
+        if ex[0] == "break" and took and not none:
+            leave = (ev, ex)
+    where = None
+    if lost:
+        conds = [e for e in lost[0] if e[0] == "cond"]
+        where = line_of(conds[-1][1]) if conds else line_of(loop)
+    ctx.check(rule, "%s:taken_reaches_%s" % (who, what.split()[0]), lost is None and n_take >= 2,
+              "on all %d paths a taken record reaches the %s" % (len(paths), what),
+              "a path of the worker loop takes a record from the shared reader and ends the iteration without reaching "
+              "the %s: that record produces no output (its row / k-mers / runs are lost)" % what, where)
+    ctx.check(rule, "%s:worker_exits" % who, leave is None, "workers leave only before taking or on None",
+              "a worker leaves its loop after taking a record that was not None", line_of(loop))
